@@ -49,7 +49,10 @@ func culpritSet(net *Net, e *tss.Error) string {
 func blameCorrespondence(r *Run, rng *rand.Rand, thorough bool) {
 	q := tss.Edwards().Params().N
 	ec := tss.Edwards()
-	type tw struct{ typ, field, kind string; elem int }
+	type tw struct {
+		typ, field, kind string
+		elem             int
+	}
 	tweaks := []tw{{"", "", "", 0}, {"KGRound2Message2", "de_commitment", "+1", 1}, {"KGRound2Message2", "de_commitment", "drop-field", 0},
 		{"KGRound2Message2", "proof_t", "+1", 0}, {"KGRound2Message2", "proof_alpha_x", "+1", 0}, {"KGRound2Message1", "share", "+1", 0},
 		{"KGRound1Message", "commitment", "random", 0}, {"KGRound2Message2", "de_commitment", "empty", 2}, {"KGRound2Message2", "", "mirror", 0}}
@@ -99,7 +102,7 @@ func blameCorrespondence(r *Run, rng *rand.Rand, thorough bool) {
 			// what party i received from each peer
 			type pin struct {
 				c, share, ax, ay, t []byte
-				d                 [][]byte
+				d                   [][]byte
 			}
 			in := map[int]*pin{}
 			for _, d := range net.Delivered {
